@@ -8,14 +8,17 @@ S=$WT/_seeded/$K
 cd "$WT" || exit 2
 git checkout -q -- . ; git apply "$S/patch.diff" || { echo "PATCH-DOES-NOT-APPLY"; exit 2; }
 make -j16 >/dev/null 2>&1; T=$(make -j16 check 2>&1 | grep -E "^# PASS:" | awk '{print $3}')
-if [ -f "$S/demo.c" ]; then
-  gcc -I. -Iqsopt_ex -I"$S" -DHAVE_CONFIG_H "$S/demo.c" -o "$S/demo" .libs/libqsopt_ex.so -lgmp -lm -Wl,-rpath,$PWD/.libs 2>/dev/null
-  "$S/demo" >/dev/null 2>&1; W=$?
-else
-  bash "$S/demo.sh" >/dev/null 2>&1; W=$?
-fi
+rundemo() {
+  if [ -f "$S/run.sh" ]; then sh "$S/run.sh" >/dev/null 2>&1
+  elif [ -f "$S/demo.sh" ]; then bash "$S/demo.sh" >/dev/null 2>&1
+  else
+    gcc -I. -Iqsopt_ex -I"$S" -DHAVE_CONFIG_H "$S/demo.c" -o "$S/demo" .libs/libqsopt_ex.so -lgmp -lm -Wl,-rpath,$PWD/.libs 2>/dev/null
+    "$S/demo" >/dev/null 2>&1
+  fi
+}
+rundemo; W=$?
 git checkout -q -- . ; make -j16 >/dev/null 2>&1
-if [ -f "$S/demo.c" ]; then "$S/demo" >/dev/null 2>&1; WO=$?; else bash "$S/demo.sh" >/dev/null 2>&1; WO=$?; fi
+rundemo; WO=$?
 echo "CONFIRM tests_pass=$T demo_with_change_rc=$W demo_without_rc=$WO"
 if [ "$T" != "20" ] || [ "$W" = "0" ] || [ "$WO" != "0" ]; then echo "NOT-CONFIRMED"; fi
 cd /verif
